@@ -57,6 +57,15 @@ def make_seg(kind, p, heading, L):
     if kind == 'L':
         e = p + L * heading
         return Line(p, e), heading
+    if kind == 'F':
+        # 'ease-out': control1 == control2 == end - first AND second derivative vanish at the end, the curve
+        # arrives along end - start
+        e = p + L * heading
+        return CubicBezier(p, e, e, e), heading
+    if kind == 'G':
+        # 'ease-in': start == control1 == control2
+        e = p + L * heading
+        return CubicBezier(p, p, p, e), heading
     if kind == 'S':
         # a straight cubic (all control points on the chord, evenly spaced)
         e = p + L * heading
@@ -275,7 +284,7 @@ def gen_cases(tier):
                     yield ('open', ''.join(kinds), list(a), [L_] * len(kinds), pr)
     # collinear cubics: straight ones, and ones whose handle overshoots an end point (the direction of
     # travel at that end is then opposite to the chord)
-    for kinds in (('S', 'L'), ('L', 'S'), ('V', 'L'), ('V', 'C'), ('L', 'W'), ('C', 'W'), ('L', 'S', 'L'), ('L', 'V', 'L'), ('L', 'W', 'L'), ('V', 'W')):
+    for kinds in (('F', 'L'), ('L', 'G'), ('F', 'G'), ('F', 'C'), ('C', 'G'), ('L', 'F', 'L'), ('S', 'L'), ('L', 'S'), ('V', 'L'), ('V', 'C'), ('L', 'W'), ('C', 'W'), ('L', 'S', 'L'), ('L', 'V', 'L'), ('L', 'W', 'L'), ('V', 'W')):
         for a in itertools.product([45, -90, 135], repeat=len(kinds) - 1):
             for L_ in (3.0, 60.0):
                 for pr in (PARAMS[2], PARAMS[3]):
@@ -292,8 +301,9 @@ def gen_cases(tier):
             for L_ in (3.0, 60.0):
                 for pr in (PARAMS[2], PARAMS[3]):
                     yield ('open', ''.join(kinds), [a], [L_, L_], pr)
-    for kind in 'LC':
-        yield ('single', kind, [], [3.0], PARAMS[3])
+    for kind in 'LCODEFGSVW':
+        for L_ in (3.0, 0.2):
+            yield ('single', kind, [], [L_], PARAMS[3])
 
 
 def run_case(c, acc):
